@@ -10,11 +10,47 @@ from typing import Dict, List, Set, Tuple
 from .model import Program, attr_chain, walk_no_nested
 
 
-def _param_deps(fn: ast.FunctionDef) -> Dict[str, Set[str]]:
+INJECTIVE_CALLS = {"tuple", "list", "str", "repr", "float", "frozenset", "id", "sorted", "bool"}
+
+
+def _faithful_names(e) -> Set[str]:
+    """names whose VALUE the expression carries along: not those that only pass through a function that merges different
+    values (len, round, int, abs, hash, min, max, ... or // and %) - a key built from len(x) does not tell two x apart"""
+    out: Set[str] = set()
+
+    def go(n, lossy):
+        if isinstance(n, ast.Name):
+            if isinstance(n.ctx, ast.Load) and not lossy:
+                out.add(n.id)
+            return
+        if isinstance(n, ast.Call):
+            f = n.func
+            keep = isinstance(f, ast.Name) and f.id in INJECTIVE_CALLS
+            for a in list(n.args) + [k.value for k in n.keywords]:
+                go(a, lossy or not keep)
+            return
+        if isinstance(n, ast.BinOp) and isinstance(n.op, (ast.FloorDiv, ast.Mod)):
+            go(n.left, True)
+            go(n.right, True)
+            return
+        if isinstance(n, (ast.Compare, ast.BoolOp)):
+            for c in ast.iter_child_nodes(n):
+                go(c, True)
+            return
+        for c in ast.iter_child_nodes(n):
+            go(c, lossy)
+
+    go(e, False)
+    return out
+
+
+def _param_deps(fn: ast.FunctionDef, faithful: bool = False) -> Dict[str, Set[str]]:
     params = [a.arg for a in fn.args.posonlyargs + fn.args.args + fn.args.kwonlyargs]
     deps: Dict[str, Set[str]] = {p: {p} for p in params}
 
     def names(e) -> Set[str]:
+        if faithful:
+            return _faithful_names(e)
         return {x.id for x in ast.walk(e) if isinstance(x, ast.Name) and isinstance(x.ctx, ast.Load)}
 
     def visit(body, ctrl: Set[str], changed: List[bool]):
@@ -96,11 +132,10 @@ def memo_bypass(prog: Program, fi, ignore: Tuple[str, ...] = ("self", "cls", "di
         if "." not in ch and head not in prog.modules[fi.module].constants and head not in prog.modules[fi.module].imports:
             continue
         if deps is None:
-            deps = _param_deps(fn)
+            deps = _param_deps(fn, faithful=True)
         kd: Set[str] = set()
-        for x in ast.walk(key):
-            if isinstance(x, ast.Name):
-                kd |= deps.get(x.id, set())
+        for nm in _faithful_names(key):
+            kd |= deps.get(nm, set())
         missing = [p for p in params if p not in kd and p not in ignore]
         out.append((r, ch, ast.unparse(key), missing))
     return out
